@@ -1277,32 +1277,42 @@ def corr_sanitizer(seed, tier):
 
 # ----------------------------------------------------------------------------------------------------- labelled frame
 def corr_frame(seed, tier):
-    """the whole preprocessing chain (rename, stack, sanitize, concatenate) and its inverse on (time, lat, lon) fields given as a
-    DataArray, as a Dataset of two variables or as a list of two arrays with different grids, with unsorted / string coordinates and
-    fully missing samples / cells (different cells per variable or item), against S.Frame over the keys (variable-or-item, lat,
-    lon): shape of the positional matrix, every value (or NaN) read back at its own label, container type and names"""
+    """the whole preprocessing chain (rename, stack, sanitize, concatenate), its inverse, and `transform` of labelled data (the training
+    data itself, and what the inverse hands back) on (time[, member], lat, lon) fields given as a DataArray, as a Dataset of two
+    variables or as a list of two arrays with different grids, with unsorted / descending / string coordinates, one or two sample
+    dimensions, and fully missing samples / cells (different cells per variable or item), against S.Frame over the keys
+    (variable-or-item, lat, lon): shape and every entry of the positional matrix, every value (or NaN) read back at its own label,
+    container type and names, and the matrices `transform` produces from labelled data"""
     from xeofs.preprocessing.preprocessor import Preprocessor
 
     R = Result("frame")
     rng = np.random.default_rng(6000 + seed)
     reqs, exps = [], []
-    for i in range({"quick": 18, "thorough": 150, "search": 60}[tier]):
-        container = ["DA", "DS", "LIST"][(i // 3) % 3]
-        n, ny, nx = int(rng.integers(2, 6)), int(rng.integers(1, 4)), int(rng.integers(1, 4))
-        ckind = ["asc", "unsorted", "str"][i % 3]
-        t = np.arange(n)
+    fmt = lambda v: "nan" if np.isnan(v) else repr(float(v))  # noqa: E731
+    for i in range({"quick": 24, "thorough": 160, "search": 64}[tier]):
+        container = ["DA", "DS", "LIST"][(i // 4) % 3]
+        nt, ny, nx = int(rng.integers(2, 6)), int(rng.integers(1, 4)), int(rng.integers(1, 4))
+        ckind = ["asc", "unsorted", "str", "desc"][i % 4]
+        two_s = bool((i // 2) % 3 == 1)  # two sample dimensions (time, member)
+        nm = int(rng.integers(2, 4)) if two_s else 1
+        t = np.arange(nt)
         if ckind == "unsorted":
             t = rng.permutation(t)
+        mem = np.arange(nm) + 10
+        n = nt * nm
         okS = rng.random(n) < 0.8
         if not okS.any():
             okS[0] = True
-        order = [("time", "lat", "lon"), ("lat", "time", "lon"), ("lon", "lat", "time")][i % 3]
+        sdims = ("time", "member") if two_s else ("time",)
+        order = [sdims + ("lat", "lon"), ("lat",) + sdims + ("lon",), ("lon", "lat") + sdims[::-1]][i % 3]
 
         def one(ny_, nx_):
             lat = np.arange(ny_) * 10.0
             lon = np.arange(nx_) * 5.0
             if ckind == "unsorted":
                 lat, lon = rng.permutation(lat), rng.permutation(lon)
+            if ckind == "desc":
+                lat = lat[::-1].copy()
             A = np.round(rng.normal(size=(n, ny_, nx_)), 6)
             okF = rng.random((ny_, nx_)) < 0.8
             if not okF.any():
@@ -1310,6 +1320,9 @@ def corr_frame(seed, tier):
             A[~okS, :, :] = np.nan
             A[:, ~okF] = np.nan
             coords = {"time": t, "lat": lat, "lon": [f"c{int(v)}" for v in lon] if ckind == "str" else lon}
+            if two_s:
+                coords["member"] = mem
+                return xr.DataArray(A.reshape(nt, nm, ny_, nx_), dims=["time", "member", "lat", "lon"], coords=coords).transpose(*order), okF
             return xr.DataArray(A, dims=["time", "lat", "lon"], coords=coords).transpose(*order), okF
 
         if container == "DA":
@@ -1326,15 +1339,29 @@ def corr_frame(seed, tier):
             obj, parts = [A, B], [("item0", A, okA), ("item1", B, okB)]
         R.tally("container", container)
         R.tally("coords", ckind)
+        R.tally("sample_dims", len(sdims))
         R.tally("dim_order", "/".join(order))
         R.tally("missing", f"samples={int((~okS).sum() > 0)},cells={int(sum((~ok).sum() for _, _, ok in parts) > 0)}")
         pp = Preprocessor(with_center=False)
-        X2 = pp.fit_transform(obj, ["time"])
-        back = pp.inverse_transform_data(X2)
-        rows = [repr(v) for v in t.tolist()]
+        X2 = pp.fit_transform(obj, list(sdims))
+        try:
+            back = pp.inverse_transform_data(X2)
+        except Exception as e:  # the model has no refusal here: a refusal is a difference
+            back = f"raised {type(e).__name__}: {str(e)[:160]}"
+        stages = {}
+        for nm_, arg in (("training", obj), ("again", back)):
+            try:
+                if isinstance(arg, str):
+                    raise RuntimeError("inverse_transform_data " + arg)
+                X3 = pp.transform(arg)
+                stages[nm_] = [[fmt(v) for v in row] for row in np.asarray(X3.transpose("sample", "feature").values)]
+            except Exception as e:  # the model has no refusal here: a refusal is a difference
+                stages[nm_] = f"raised {type(e).__name__}: {str(e)[:160]}"
+        rows = [repr((a, b)) for a in t.tolist() for b in mem.tolist()] if two_s else [repr(v) for v in t.tolist()]
         cols, okF_all, blocks = [], [], []
+        full = sdims + ("lat", "lon")
         for tag, P, ok in parts:
-            Ps = P.transpose("time", "lat", "lon")
+            Ps = P.transpose(*full)
             cols += [repr((tag, a, b)) for a in Ps.lat.values.tolist() for b in Ps.lon.values.tolist()]
             okF_all += [bool(x) for x in ok.ravel()]
             blocks.append(Ps.values.reshape(n, -1))
@@ -1347,22 +1374,32 @@ def corr_frame(seed, tier):
         if ok_struct:
             for k, (tag, P, ok) in enumerate(parts):
                 Bk = back if container == "DA" else (back[tag] if container == "DS" else back[k])
-                Ps = P.transpose("time", "lat", "lon")
-                if set(Bk.dims) != {"time", "lat", "lon"}:
+                Ps = P.transpose(*full)
+                if set(Bk.dims) != set(full):
                     ok_struct = False
                     break
-                bs = Bk.transpose("time", "lat", "lon").reindex(time=Ps.time.values, lat=Ps.lat.values, lon=Ps.lon.values)
+                bs = Bk.transpose(*full).reindex({d: Ps[d].values for d in full})
                 bblocks.append(bs.values.reshape(n, -1))
-        exp_back = [["nan" if np.isnan(v) else repr(float(v)) for v in row] for row in np.concatenate(bblocks, axis=1)] if ok_struct else None
+        exp_back = [[fmt(v) for v in row] for row in np.concatenate(bblocks, axis=1)] if ok_struct else None
         reqs.append(req)
         exps.append({"shape": [int(X2.sizes["sample"]), int(X2.sizes["feature"])], "back": exp_back, "structure_ok": ok_struct,
-                     "container": type(back).__name__})
+                     "container": back if isinstance(back, str) else type(back).__name__, "mat": [[fmt(v) for v in row] for row in np.asarray(X2.transpose("sample", "feature").values)],
+                     "stages": stages})
     for req, exp, ans in zip(reqs, exps, ask(reqs)):
         small = {"rows": req["rows"], "n_cols": len(req["cols"]), "okS": req["okS"], "okF": req["okF"]}
         R.cmp("matrix_shape", ans["shape"] == exp["shape"], small, ans["shape"], exp["shape"])
+        # the order of the matrix columns is internal (it follows the dimension order xarray reports): compare the columns as a multiset …
+        colset = lambda M: sorted(zip(*M)) if M and isinstance(M, list) else M  # noqa: E731
+        R.cmp("matrix_entries", colset(ans["mat"]) == colset(exp["mat"]), small, ans["mat"], exp["mat"])
         R.cmp("container_and_dims", bool(exp["structure_ok"]), small, "same container, variable names and dimensions", exp["container"])
         if exp["back"] is not None:
             R.cmp("read_back", ans["back"] == exp["back"], small, ans["back"], exp["back"])
+        # … but `transform` must reproduce the fitted matrix column for column: the model's relation (theorems transformBy_training /
+        # transformBy_readBack: both equal the fitted matrix) is evaluated on the model AND on the implementation
+        R.cmp("transform_training_data", ans["training"] == ans["mat"] and exp["stages"]["training"] == exp["mat"], small, "equals the fitted matrix", exp["stages"]["training"])
+        # (the reconstruction may carry its samples in sorted order, and `transform` follows the order of the data it is given: rows as a multiset)
+        rowset = lambda M: sorted(map(tuple, M)) if isinstance(M, list) else M  # noqa: E731
+        R.cmp("transform_reconstruction", ans["again"] == ans["mat"] and rowset(exp["stages"]["again"]) == rowset(exp["mat"]), small, "equals the fitted matrix (rows in the order given)", exp["stages"]["again"])
     return R
 
 
@@ -1717,8 +1754,8 @@ CORR = {
 BY_PROP = {
     "C01": ["complex", "eof_pipeline", "hilbert", "eeof", "sign_rule"],
     "C02": ["frame"],
-    "C03": ["complex", "eof_pipeline", "scaler", "cpcca_core"],
-    "C04": ["complex", "eof_pipeline", "cpcca_core", "rotator"],
+    "C03": ["complex", "eof_pipeline", "scaler", "cpcca_core", "frame"],
+    "C04": ["complex", "eof_pipeline", "cpcca_core", "rotator", "frame"],
     "C05": ["eof_pipeline"],
     "C06": ["sanitizer", "frame"],
     "C07": ["frame"],
